@@ -34,6 +34,8 @@ type c15Case struct {
 	Follow bool `json:"follow,omitempty"`
 	// DstLink: the destination root is handed over as a symlink to the directory (/var/run, current -> releases/42)
 	DstLink bool `json:"dstlink,omitempty"`
+	// Disk: source and destination lie on the disk file system (inode numbers are handed out again at once)
+	Disk bool `json:"disk,omitempty"`
 }
 
 func shapeOf(t fsmodel.Tree) string {
@@ -52,7 +54,7 @@ func shapeOf(t fsmodel.Tree) string {
 }
 
 func (c c15Case) String() string {
-	s := fmt.Sprintf("src=%s dst=%s Copy(%q -> %q) dircontents=%v always-replace=%v wildcards=%v dst-root-is-a-symlink=%v", shapeOf(c.Src), shapeOf(c.Dst), c.SrcArg, c.DstArg, c.DirC, c.Repl, c.Wild, c.DstLink)
+	s := fmt.Sprintf("src=%s dst=%s Copy(%q -> %q) dircontents=%v always-replace=%v wildcards=%v dst-root-is-a-symlink=%v on-disk-filesystem=%v", shapeOf(c.Src), shapeOf(c.Dst), c.SrcArg, c.DstArg, c.DirC, c.Repl, c.Wild, c.DstLink, c.Disk)
 	if len(c.Exclude) > 0 || c.Follow {
 		s += fmt.Sprintf(" exclude=%q follow-links=%v", c.Exclude, c.Follow)
 	}
@@ -284,6 +286,11 @@ func runCopy(c c15Case, srcDir, dstDir string) error {
 
 func judgeC15Raw(c c15Case) (string, string) {
 	root := scratch.Dir("ov")
+	if c.Disk {
+		if d := scratch.DiskDir("ov"); d != "" {
+			root = d
+		}
+	}
 	defer scratch.Remove(root)
 	// the roots carry pattern metacharacters in their own names: only what lies below a root is ever matched
 	srcDir, dstDir := filepath.Join(root, "s[1]rc"), filepath.Join(root, "d[s]t*")
@@ -557,6 +564,23 @@ func runC15(r *evid.Run) {
 							cases = append(cases, c15Case{Src: st, Dst: d, SrcArg: sa, DstArg: da, DirC: o&1 != 0, Repl: o&2 != 0, Wild: hasWild(sa)})
 						}
 					}
+				}
+			}
+		}
+	}
+	// several wildcard matches land on one destination path, and a name of a hard-linked file comes after the match that
+	// replaced its first name: the later name carries the linked file's bytes, not those of whatever replaced the
+	// first name - on tmpfs and on the disk file system (which re-uses the inode number of the replaced file)
+	{
+		T := fsmodel.T0
+		dd := func(p string) fsmodel.Node { return fsmodel.Node{Path: p, Kind: fsmodel.Dir, Perm: 0755, Mtime: T} }
+		mm := fsmodel.Tree{dd("x"), {Path: "x/f", Kind: fsmodel.File, Perm: 0644, Mtime: T + 1, Data: []byte("S:linked"), HL: 1}, dd("y"), {Path: "y/f", Kind: fsmodel.File, Perm: 0644, Mtime: T + 1, Data: []byte("S:other!")},
+			dd("z"), {Path: "z/h", Kind: fsmodel.File, Perm: 0644, Mtime: T + 1, Data: []byte("S:linked"), HL: 1}, {Path: "z/k", Kind: fsmodel.File, Perm: 0600, Mtime: T + 2, Data: []byte("S:k")}}
+		mm.Sort()
+		for _, disk := range []bool{false, true} {
+			for _, da := range []string{"/", "new", "new/"} {
+				for o := 0; o < 4; o++ {
+					cases = append(cases, c15Case{Src: mm, Dst: nil, SrcArg: "?", DstArg: da, DirC: o&1 != 0, Repl: o&2 != 0, Wild: true, Disk: disk})
 				}
 			}
 		}
